@@ -25,6 +25,8 @@ import YataProofs.MALaws
 import YataProofs.MALaws2
 import YataProofs.VidyaLaws
 import YataProofs.SMMLaws
+import YataProofs.Indicators.AffineAll
+import YataProofs.Indicators.RSIScale
 namespace Yata.C15
 open Yata
 variable {K : Type} [Field K] [LinearOrder K] [IsStrictOrderedRing K]
@@ -137,6 +139,19 @@ theorem C15_wma_impulse (n j : Nat) (hj : j < n) :
 example : Spec.wma 3 (0 : ℚ) [0, 0, 0, 1] = 1 / 2 ∧ Spec.wma 3 (0 : ℚ) [0, 0, 0, 1, 0] = 1 / 3 := by
   constructor <;> norm_num [Spec.wma, Spec.win, Spec.rampSum, lastN, history, List.replicate]
 
+open Yata.Ind in
+/-- EVERY kind of the configurable moving average at once: its documented formula commutes with every affine change of unit
+    `x ↦ a·x + b`, `a ≠ 0` (construction value included), for every accepted length and every stream -/
+theorem C15_every_kind_affine {P : Nat} (k : MAKind) (n : Nat) (hv : validLen P k n) (a b v : ℚ) (ha : a ≠ 0) (xs : List ℚ) :
+    specOf k n (a * v + b) (xs.map fun x => a * x + b) = a * specOf k n v xs + b := specOf_affine k n hv a b v ha xs
+
+open Yata.Ind in
+/-- a consequence one level up, and the model-level counterpart of the exact scale law run on the real code: the documented
+    RSI value does not depend on the unit the prices are quoted in — every kind of average, every positive factor, every stream -/
+theorem C15_rsi_unit_free {P : Nat} (c : RSICfg) (h1 : validLen P c.ma.kind c.ma.length) (a : ℚ) (ha : 0 < a) (p0 : ℚ)
+    (srcs : List ℚ) : RSI.valueOf c (a * p0) (srcs.map fun x => a * x) = RSI.valueOf c p0 srcs :=
+  RSI.valueOf_scale c h1 a ha p0 srcs
+
 end Yata.C15
 
 #print axioms Yata.C15.C15_sma
@@ -153,3 +168,5 @@ end Yata.C15
 #print axioms Yata.C15.C15_linreg
 #print axioms Yata.C15.C15_smm
 #print axioms Yata.C15.C15_vidya
+#print axioms Yata.C15.C15_every_kind_affine
+#print axioms Yata.C15.C15_rsi_unit_free
